@@ -70,7 +70,42 @@ fn guarded<T>(task: usize, f: impl FnOnce() -> T) -> Result<T, String> {
     r.map_err(|_| seams::last_panic())
 }
 
+static HEAP_PERTURB: std::sync::atomic::AtomicU64 = std::sync::atomic::AtomicU64::new(0);
+static HEAP_SEED: std::sync::atomic::AtomicU64 = std::sync::atomic::AtomicU64::new(0);
+
+/// Fault `heap_layout`: on the calling thread, right before a call, allocate blocks of
+/// seeded sizes (mostly small size classes) and free a seeded subset in a seeded order, so
+/// that the allocator's free lists — and with them the addresses, and the relative order
+/// of the addresses, of what the call allocates — differ from the reference context.
+fn perturb_heap(task: usize, k: usize) {
+    let n = HEAP_PERTURB.load(std::sync::atomic::Ordering::SeqCst) as usize;
+    if n == 0 {
+        return;
+    }
+    let seed = HEAP_SEED.load(std::sync::atomic::Ordering::SeqCst);
+    let mut r = Rng::new(crate::rng::mix3(seed, task as u64, 0x4ea9 + k as u64));
+    let mut blocks: Vec<Option<Vec<u8>>> = Vec::with_capacity(n);
+    for i in 0..n {
+        let size = match r.below(8) {
+            0..=4 => 8 * r.range(1, 16),
+            5 => r.range(128, 1024),
+            6 => r.range(1024, 8192),
+            _ => r.range(8192, 200_000),
+        };
+        blocks.push(Some(vec![i as u8; size]));
+    }
+    let mut order: Vec<usize> = (0..n).collect();
+    r.shuffle(&mut order);
+    for i in order {
+        if r.below(3) != 0 {
+            blocks[i] = None; // freed now, in this (random) order
+        }
+    }
+    std::mem::forget(blocks); // the rest stays allocated
+}
+
 fn run_call(task: usize, k: usize, call: &Call) -> CallOut {
+    perturb_heap(task, k);
     let mut session_err: Option<String> = None;
     if call.session {
         // the protocol `prqlc compile --debug-log` follows: one session, closed by its owner.
@@ -445,28 +480,17 @@ pub fn run_plan_here(plan: &Plan) -> Outcome {
         let mut st = state();
         *st = seams::SimState::empty();
         st.log_yield_ppm = plan.log_yield_ppm;
+        st.heap_ppm = if plan.heap_perturb > 0 { 30_000 } else { 0 };
+        st.heap_rng = Rng::new(crate::rng::mix(plan.exec_seed, 0x4ea91));
         st.yield_rng = Rng::new(crate::rng::mix(plan.sched.seed, 0x10c));
         st.log = if plan.keep_log { Some(Vec::new()) } else { None };
         st.tasks = vec![TaskState::default(); plan.threads.len() + 1];
         st.ev(&format!("seed {} stratum {}", plan.exec_seed, plan.stratum));
     }
+    HEAP_PERTURB.store(plan.heap_perturb as u64, std::sync::atomic::Ordering::SeqCst);
+    HEAP_SEED.store(plan.exec_seed, std::sync::atomic::Ordering::SeqCst);
     if plan.heap_perturb > 0 {
-        let mut r = Rng::new(crate::rng::mix(plan.exec_seed, 0x4ea9));
-        let mut keep: Vec<Vec<u8>> = Vec::new();
-        for i in 0..plan.heap_perturb {
-            let size = match r.below(4) {
-                0 => r.range(8, 64),
-                1 => r.range(64, 512),
-                2 => r.range(512, 4096),
-                _ => r.range(4096, 70_000),
-            };
-            let v = vec![i as u8; size];
-            if i % 2 == 0 {
-                keep.push(v);
-            }
-        }
         state().ev(&format!("fault heap_layout blocks={}", plan.heap_perturb));
-        std::mem::forget(keep);
     }
     seams::set_hash_base(plan.hash_base);
     match &plan.env_before {
